@@ -595,6 +595,30 @@ def parse_dump(recs):
     return out
 
 
+def quote_words(s):
+    """split on unquoted spaces, honouring only '...' and backslash (the two quoting forms llbuild and ninja emit);
+    every other byte is literal.  Used for descriptions, which are not shell commands.  None = unterminated."""
+    words, cur, i, n, inw = [], bytearray(), 0, len(s), False
+    while i < n:
+        c = s[i:i + 1]
+        if c == b"'":
+            j = s.find(b"'", i + 1)
+            if j < 0:
+                return None
+            cur += s[i + 1:j]; inw = True; i = j + 1
+        elif c == b"\\" and i + 1 < n:
+            cur += s[i + 1:i + 2]; inw = True; i += 2
+        elif c == b" ":
+            if inw:
+                words.append(bytes(cur)); cur = bytearray(); inw = False
+            i += 1
+        else:
+            cur += c; inw = True; i += 1
+    if inw:
+        words.append(bytes(cur))
+    return tuple(words)
+
+
 def show(b):
     return b.decode("latin-1") if isinstance(b, (bytes, bytearray)) else b
 
@@ -627,21 +651,24 @@ def parse_compdb(data):
     return [dict(command=e["command"].encode("latin-1"), output=e["output"].encode("latin-1"), file=e["file"].encode("latin-1")) for e in l]
 
 
-def parse_query(data):
-    """`ninja -t query t1 t2 ...` -> {target: (rule, explicit, implicit, orderonly)}"""
-    out, cur, sec = {}, None, None
+def parse_query(data, targets):
+    """`ninja -t query t1 t2 ...` -> {target: (rule, explicit, implicit, orderonly)}; the targets are printed in the
+    order given, each as "<path>:" at the start of a line"""
+    out, cur, sec, ti = {}, None, None, 0
     for line in data.split(b"\n"):
         if not line:
             continue
-        if not line.startswith(b" "):
-            cur = line[:-1] if line.endswith(b":") else line
+        if ti < len(targets) and line == targets[ti] + b":":
+            cur = targets[ti]; ti += 1
             out[cur] = [None, [], [], []]
             sec = None
-        elif line.startswith(b"  input: "):
+        elif cur is None:
+            continue
+        elif line.startswith(b"  input: ") and sec is None:
             out[cur][0] = line[9:]; sec = "in"
-        elif line.startswith(b"  outputs:"):
+        elif line == b"  outputs:":
             sec = "out"
-        elif line.startswith(b"  validations:"):
+        elif line == b"  validations:":
             sec = "val"
         elif line.startswith(b"    ") and sec == "in":
             t = line[4:]
@@ -692,7 +719,7 @@ def oracle(chk, run, case, wd, impl, stats):
     if targets:
         rcq, outq, errq = ninja_run(wd, ["-t", "query"] + targets)
         if rcq == 0:
-            q = parse_query(outq)
+            q = parse_query(outq, targets)
         else:
             m = re.search(rb"unknown target '(.*)'", errq)
             bad.append(("output-unknown-to-ninja", "ninja does not know an output that llbuild loaded: %s" % show(errq)[-200:],
@@ -780,7 +807,8 @@ def oracle(chk, run, case, wd, impl, stats):
                         bad.append(("rspfile-content-mismatch", "output %r: response-file content differs: llbuild %r, ninja (spliced into the command) %r" % (show(first), show(c["rspfile_content"]), show(expanded)),
                                     dict(edge_index=i, llbuild_spliced=show(mine), ninja_spliced=show(expanded))))
     # ---- descriptions: dry run (needs the source files to exist)
-    if not bad and not flagged and cmds:
+    # (an edge in the console pool locks ninja's line printer, which then drops status lines: no dry run for those)
+    if not bad and not flagged and cmds and not any(c["pool"] == b"console" for c in cmds):
         produced = set(s for c in cmds for (_, s) in c["outs"])
         ok = True
         for c in cmds:
@@ -810,7 +838,8 @@ def oracle(chk, run, case, wd, impl, stats):
                     got = sorted(lines)
                     if all(b"\n" not in w for w in want):
                         stats["dry_runs"] += 1
-                        if want != got:
+                        # ninja quotes a superset of what llbuild quotes: equal as word lists under quote removal
+                        if want != got and sorted(map(quote_words, want), key=repr) != sorted(map(quote_words, got), key=repr):
                             # quoting-only differences are still differences of the description string
                             bad.append(("description-mismatch", "the descriptions ninja prints in a dry run differ from llbuild's: only llbuild %s, only ninja %s" % (
                                 [show(x) for x in want if x not in got][:3], [show(x) for x in got if x not in want][:3]), dict()))
